@@ -33,6 +33,18 @@ def prime(call):
             pass
 
 
+def provoke(obj, attempts):
+    """calls that fail (attempts: (method name, args, kwargs)), made on the object before the call under test; the caller catches
+    the error and carries on -- a failed call may not leave anything behind in the object"""
+    n = 0
+    for name, args, kw in attempts:
+        try:
+            getattr(obj, name)(*args, **kw)
+        except Exception:
+            n += 1
+    return n
+
+
 def hold(call, outs, what):
     """outs: the arrays as returned by the real call.  Returns a message or None."""
     keep = [None if not isinstance(a, np.ndarray) else a.copy() for a in outs]
